@@ -62,7 +62,7 @@ static volatile long g_foreign_ser;     /* save_to_stream on the integrator thre
 static unsigned g_prob = 0, g_maxus = 0; /* delay injection: probability per 1000, max microseconds */
 static uint64_t g_seed = 1;
 
-static __thread int t_in_chk, t_in_step, t_in_int, t_pro;
+static __thread int t_in_chk, t_in_step, t_in_int, t_pro, t_adj;
 static __thread uint64_t t_rng;
 
 static long mytid(void) { return syscall(SYS_gettid); }
@@ -165,11 +165,11 @@ int reb_check_exit(void* r, double tmax, double* last_full_dt) {
     int mine = g_active && t_in_int && mytid() == g_itid;
     if (!mine) return real_check_exit(r, tmax, last_full_dt);
     append(E_iChkBegin, -1);
-    t_in_chk = 1; t_pro = 0;
+    t_in_chk = 1; t_pro = 0; t_adj = 0;
     delay();
     int rc = real_check_exit(r, tmax, last_full_dt);
     delay();
-    t_in_chk = 0;
+    t_in_chk = 0; t_adj = 0;
     append(rc < 0 ? E_iChkEnd1 : E_iChkEnd0, -1);
     return rc;
 }
@@ -179,7 +179,9 @@ void reb_simulation_synchronize(void* r) {
     /* t_pro: the prologue (rebound.c:805-808) may synchronise before reversing dt; it is one unlocked write in the model */
     int mine = g_active && t_in_int && !t_in_step && !t_pro && mytid() == g_itid;
     if (!mine) { real_synchronize(r); return; }
-    append(t_in_chk ? E_iChkSync : E_iEpiSync, -1);
+    /* one unlocked-write region (last-step path of reb_check_exit / epilogue) may synchronise more than once: the model
+       event is "the region begins" */
+    if (!t_adj) { t_adj = 1; append(t_in_chk ? E_iChkSync : E_iEpiSync, -1); }
     delay();
     real_synchronize(r);
     delay();
@@ -216,7 +218,7 @@ void c19_set_integrator(void) { g_itid = mytid(); }
 void c19_delays(uint64_t seed, unsigned prob_permille, unsigned max_us) { g_seed = seed ? seed : 1; g_prob = prob_permille; g_maxus = max_us; }
 /* code 0: integrate() is about to be called by this thread; code 1: it returned */
 void c19_mark(int code) {
-    if (code == 0) { t_in_int = 1; t_pro = 1; append(E_iEnter, -1); }
+    if (code == 0) { t_in_int = 1; t_pro = 1; t_adj = 0; append(E_iEnter, -1); }
     else { append(E_iLeave, -1); t_in_int = 0; }
 }
 void c19_stop(void) { g_active = 0; }
